@@ -740,6 +740,8 @@ func (g *gxGen) dataNodes(m *gsMod, tag string, depth int) []*gsStmt {
 			ll := gs("leaf-list", g.fresh(tag+"ll"), gs("type", g.typeRef(m)))
 			if g.rng.Intn(3) == 0 {
 				ll.add(gs("min-elements", "1"), gs("max-elements", "8"))
+			} else if g.rng.Intn(3) == 0 {
+				ll.add(gs("default", "d1"), gs("default", "d2"), gs("default", "d3"))
 			}
 			out = append(out, ll)
 		case 3:
